@@ -97,6 +97,13 @@ func judgeOptimum(prop, cfg string, rp *ref.Problem, cost *ref.Cost, min int, sa
 	if weight != want {
 		out.fail(prop, "cost-mismatch", "[%s] reported cost %d, cost function on the returned model gives %d; cons=%v cost=%+v", cfg, weight, want, t.Cons, cost)
 	}
+	if want != min && t.Stop {
+		// the caller signalled its stop channel: the properties say nothing about what a stopped
+		// optimisation returns beyond a valid model with its true cost (the pinned tree ignores the
+		// signal; a tree that honours it may legitimately return early)
+		out.probe("stopped-optimisation-not-optimal")
+		return
+	}
 	if want != min {
 		out.fail(prop, "not-optimal", "[%s] returned model costs %d, a model of cost %d exists; cons=%v cost=%+v", cfg, want, min, t.Cons, cost)
 	}
